@@ -51,15 +51,23 @@ Definition shape_valid (t : tag) (a : attrs) : bool :=
   end.
 
 (* ------------------------------------------------------------------ has_valid_transform *)
-(* tiny_skia_path::Transform::is_valid (third party, validated by convert-skel): finite and both
-   get_scale() components above f32::EPSILON; sqrt(a) <= eps  <=>  a <= eps^2 *)
-Definition F32_EPS_SQ : Q := (1 # 8388608) * (1 # 8388608).
-Definition usvg_ts_valid (t : ts) : bool :=
+(* TT_IsValid: tiny_skia_path::Transform::is_valid (third party, validated by convert-skel): finite and both get_scale()
+   components above f32::EPSILON; sqrt(a) <= eps  <=>  a <= eps^2.
+   TT_DetRelTol (427fd1e): |ad - bc| > f32::EPSILON * (|ad| + |bc|), computed in f64 (idealised as exact). *)
+Definition F32_EPS : Q := 1 # 8388608.
+Definition F32_EPS_SQ : Q := F32_EPS * F32_EPS.
+Definition Qabs_b (a : Q) : Q := if Qleb 0 a then a else - a.
+Definition ts_is_valid (t : ts) : bool :=
   negb (Qleb (t_sx t * t_sx t + t_kx t * t_kx t) F32_EPS_SQ) &&
   negb (Qleb (t_ky t * t_ky t + t_sy t * t_sy t) F32_EPS_SQ).
 Definition ts_det (t : ts) : Q := t_sx t * t_sy t - t_kx t * t_ky t.
-(* known class: a non-invertible transform that has_valid_transform accepts *)
-Definition singular_kept (t : ts) : bool := Qeqb (ts_det t) 0 && usvg_ts_valid t.
+Definition eval_ts_test (t : ts) (x : ts_test) : bool :=
+  match x with
+  | TT_IsValid => ts_is_valid t
+  | TT_DetRelTol => Qltb (F32_EPS * (Qabs_b (t_sx t * t_sy t) + Qabs_b (t_kx t * t_ky t))) (Qabs_b (t_sx t * t_sy t - t_kx t * t_ky t))
+  end.
+(* SvgNode::has_valid_transform on a parsed transform *)
+Definition usvg_ts_valid (t : ts) : bool := forallb (eval_ts_test t) valid_ts_tests.
 
 (* ------------------------------------------------------------------ generated ids *)
 Fixpoint str_in (s : string) (l : list string) : bool :=
